@@ -76,6 +76,100 @@ def runLincomb (st : State) (n m : Nat) (abs : List (Nat × Nat)) : String :=
   let z := Lincomb.opLincomb st l
   outTok st z ++ " ;; " ++ specTok st n m (Lincomb.sumSpec m (abs.map fun ab => (ab.1 % m, ab.2 % m)))
 
+/-! ### hook-level ops (`crypto_bigint::verif_hooks`): the crate-internal functions on RAW Montgomery-domain
+    limbs. L1 = the model function the lemmas are stated about; L0 (plain `Nat` arithmetic) is printed where
+    the inputs satisfy the function's contract, otherwise L1 alone. -/
+
+/-- `m⁻¹ mod 2^bits` for odd `m` (Newton: `x ← x(2 − m x)`), then negated: `−m⁻¹ mod 2^bits`. -/
+def negInvPow2 (m bits : Nat) : Nat :=
+  let r := 2 ^ bits
+  let stp := fun x => (x * ((2 * r + 2 - (m * x) % r) % r)) % r
+  let rec go : Nat → Nat → Nat
+    | 0, x => x
+    | f + 1, x => go f (stp x)
+  (r - go (Nat.log2 bits + 2) 1 % r) % r
+
+/-- the modular inverse of `R = B^n` modulo the odd `m`: from `R·R⁻¹ = 1 + N·m` with `N = −m⁻¹ mod R`:
+    `R⁻¹ = (1 + N·m) / R`. -/
+def rInv (n m : Nat) : Nat := ((1 + negInvPow2 m (64 * n) * m) / B ^ n) % m
+
+def joinComma (l : List String) : String := String.intercalate "," l
+
+/-- inputs on which the C08/C09 lemmas speak: odd modulus (non-zero), `k·m ≡ −1 (mod 2^64)`. -/
+def modOK (n m k : Nat) : Bool := m % 2 = 1 && m < B ^ n && (k * m + 1) % B = 0 && k < B
+
+/-- `compute_powers(x, m, one, k)`; L0 for canonical inputs (`one = R mod m`, `x < m`): entry `j` is the Montgomery
+    form of `X^j`, `X = x·R⁻¹ mod m`. -/
+def runComputePowers (n m one k x : Nat) : String :=
+  let ms := toLimbs n m
+  let t := Pow.computePowers (toLimbs n x) ms (toLimbs n one) k
+  let l1 := joinComma (t.map limbsHex)
+  if modOK n m k && one = B ^ n % m && x < m then
+    let X := x * rInv n m % m
+    l1 ++ " ;; " ++ joinComma ((List.range Pow.TABLE).map fun j => natToHex (Pow.modPow m X j * (B ^ n % m) % m))
+  else l1
+
+def parseTables (s : String) : Option (List (List Nat × Nat)) :=
+  if s = "-" then some [] else
+  (s.splitOn ";").mapM fun p =>
+    match p.splitOn "," with
+    | [tab, e] => match (tab.splitOn ":").mapM hexToNat?, hexToNat? e with
+      | some t, some e => if t.length = Pow.TABLE then some (t, e) else none
+      | _, _ => none
+    | _ => none
+
+/-- is `t` the table of Montgomery forms of `X^0 … X^15` for `X = t[1]·R⁻¹`? -/
+def isPowerTable (n m : Nat) (t : List Nat) : Bool :=
+  let X := t.getD 1 0 * rInv n m % m
+  (List.range Pow.TABLE).all fun j => t.getD j 0 == Pow.modPow m X j * (B ^ n % m) % m
+
+/-- `multi_exponentiate_montgomery_form_internal` on caller-provided tables. `exponent_bits = 0`: the code
+    computes `exponent_bits - 1` (overflow panic with checks; without, the wrapped `starting_limb` indexes the
+    exponent out of bounds) — a panic in both profiles as soon as there is a term; not generated without terms. -/
+def runMultiInternal (n ne m one k bits : Nat) (tabs : List (List Nat × Nat)) : String :=
+  let ms := toLimbs n m
+  let pes := tabs.map fun te => (te.1.map (toLimbs n), toLimbs ne te.2)
+  if bits = 0 || Pow.indexPanics bits (pes.map (·.2)) then "panic" else
+  let z := Pow.multiExpInternal pes bits ms (toLimbs n one) k
+  if modOK n m k && one = B ^ n % m && tabs.all (fun te => isPowerTable n m te.1) then
+    let r := multiSpecFast m bits (tabs.map fun te => (te.1.getD 1 0 * rInv n m % m, te.2))
+    limbsHex z ++ " ;; " ++ natToHex (r * (B ^ n % m) % m)
+  else limbsHex z
+
+/-- ONE pass of `impl_longa_monty_lincomb!` → `(u, hi_carry)`. L0 for a proper `k` and ANY limbs `a, b < B^n`,
+    any number of terms: the interleaved reduction adds the multiple `Q·m`, `Q = S·(−m⁻¹) mod R`, that clears
+    the low `n` limbs of `S = Σ aᵢ·bᵢ`, so `u + hi_carry·R = (S + Q·m) / R` exactly. -/
+def runLonga (boxed : Bool) (n m k : Nat) (abs : List (Nat × Nat)) : String :=
+  let ms := toLimbs n m
+  let r := Lincomb.longa (abs.map fun ab => (toLimbs n ab.1, toLimbs n ab.2)) ms k
+  let l1 := (if boxed then limbsHexLen r.1 else limbsHex r.1) ++ " " ++ natToHex r.2
+  -- `BoxedMontyForm::as_montgomery()` (called by the macro for every limb read) carries
+  -- `debug_assert!(self.montgomery_form < self.params.modulus)`: unreduced boxed limbs panic with debug assertions
+  let unred := boxed && abs.any (fun ab => ab.1 ≥ m || ab.2 ≥ m)
+  let l1 := if unred then l1 ++ " ## panic" else l1
+  if modOK n m k && !unred then
+    let R := B ^ n
+    let S := abs.foldl (fun acc ab => acc + ab.1 * ab.2) 0
+    let Q := S * negInvPow2 m (64 * n) % R
+    let U := (S + Q * m) / R
+    if (S + Q * m) % R ≠ 0 then "bad-l0" else
+    l1 ++ " ;; " ++ (if boxed then s!"{n}:{natToHex (U % R)}" else natToHex (U % R)) ++ " " ++ natToHex (U / R)
+  else l1
+
+/-- boxed `pow_montgomery_form(x, e, bits, m, one, k)`. The closing `debug_assert!(&z < modulus)` makes the
+    overflow-checking profile panic when the two conditional subtractions do not reach `[0, m)` (possible only
+    for inputs outside the contract). L0 for canonical inputs: the Montgomery form of `X^(e mod 2^bits)`. -/
+def runBPow (n ne m one k bits x e : Nat) : String :=
+  let ms := toLimbs n m
+  let el := toLimbs ne e
+  if Pow.indexPanics bits [el] then "panic" else
+  let z := Pow.bPowMont (toLimbs n x) el bits ms (toLimbs n one) k
+  let l1 := if bits = 0 || val z < m then limbsHexLen z else limbsHexLen z ++ " ## panic"
+  if modOK n m k && one = B ^ n % m && x < m then
+    let X := x * rInv n m % m
+    l1 ++ " ;; " ++ s!"{n}:{natToHex (Pow.modPow m X (e % 2 ^ bits) * (B ^ n % m) % m)}"
+  else l1
+
 end C09drv
 open C09drv
 
@@ -121,6 +215,27 @@ def dispatchC09 : Dispatch := fun op args =>
       | some st => if m % 2 = 1 && n > 0 then some (runLincomb st n m abs) else badArgs
       | none => badArgs
     | _, _, _ => badArgs
+  | "c09.hook.compute_powers", [n, m, one, k, x] =>
+    match n.toNat?, hexToNat? m, hexToNat? one, hexToNat? k, hexToNat? x with
+    | some n, some m, some one, some k, some x =>
+      if m % 2 = 1 && n > 0 then some (runComputePowers n m one k x) else badArgs
+    | _, _, _, _, _ => badArgs
+  | "c09.hook.multi_internal", [n, ne, m, one, k, bits, tabs] =>
+    match n.toNat?, ne.toNat?, hexToNat? m, hexToNat? one, hexToNat? k, bits.toNat?, parseTables tabs with
+    | some n, some ne, some m, some one, some k, some bits, some tabs =>
+      if m % 2 = 1 && n > 0 && ne > 0 && !(bits = 0 && tabs.isEmpty) then some (runMultiInternal n ne m one k bits tabs)
+      else badArgs
+    | _, _, _, _, _, _, _ => badArgs
+  | "c09.hook.longa", [n, m, k, abs] | "c09.hook.blonga", [n, m, k, abs] =>
+    match n.toNat?, hexToNat? m, hexToNat? k, parsePairs abs with
+    | some n, some m, some k, some abs =>
+      if m % 2 = 1 && n > 0 then some (runLonga (op = "c09.hook.blonga") n m k abs) else badArgs
+    | _, _, _, _ => badArgs
+  | "c09.hook.bpow", [n, ne, m, one, k, bits, x, e] =>
+    match n.toNat?, ne.toNat?, hexToNat? m, hexToNat? one, hexToNat? k, bits.toNat?, hexToNat? x, hexToNat? e with
+    | some n, some ne, some m, some one, some k, some bits, some x, some e =>
+      if m % 2 = 1 && n > 0 && ne > 0 then some (runBPow n ne m one k bits x e) else badArgs
+    | _, _, _, _, _, _, _, _ => badArgs
   | _, _ => none
 
 end CB
